@@ -51,7 +51,7 @@ re_void = re.compile(r"""^(\s*[0-9]+)        # name
 # may follow it without a blank if it starts with a parenthesis or a `#`
 re_second = re.compile(r'^\s*\S+\s+([^\s(#]+)')
 re_nonvoid = re.compile(r"""^(\s*[0-9]+)        # name
-                             (\s+\S+\s+[^\s(]+) # material and density
+                             (\s+\S+\s+[^\s(#]+) # material and density
                              (.*)$              # geometry""",
                         re.IGNORECASE + re.VERBOSE)
 
